@@ -74,6 +74,13 @@ CHECKS = {
                      "no write into the list owned by the wrapped dataset; smoothing vector algebra on reals with symbolic class count; every int-label wrapper that rewrites getitem_class also defines getall_class; "
                      "constructors, pseudo-label tables and one-hot encodings are bounded only",
                 note=TRUST + "; the wrapped dataset is the abstract int-label dataset (labels in [-1, C), bulk == per-sample below)"),
+    "C17": dict(level="proof", technique="contract-based deductive verification of the mask collators over abstract 0/1 grids (uninterpreted cell and box-count functions with write axioms; ghost version map for in-place mutation; loop invariants incl. nested fill loops and quantified invariants over symbolic mask lists; AST->SMT, z3+cvc5) + frame obligation (block sizes keyed by the step counter) + bounded stand-in on the real collators",
+                text="DINO: _mask_block switches on exactly `result` <= remaining-budget cells inside the grid, _generate_mask never exceeds its total and terminates, collate touches only the first floor(B*V*p) masks, "
+                     "every mask's count <= ratio_max * patches, B*V masks of the configured grid size, batch returned as is. I-JEPA: block sizes in [0, grid-1]; _sample_block_mask returns the sorted duplicate-free in-range indices of a "
+                     "rectangle of the requested size plus its exact complement; _sample_block_mask_constrained returns sorted in-range indices inside every acceptable region, more than min_keep of them, leaving the regions unmodified, "
+                     "under the property's no-relaxation precondition. I-JEPA collate (list plumbing, truncation, default_collate layout), the count of non-empty masks after the shuffle and the multiprocessing step counter are bounded only",
+                note=TRUST + "; torch 2-d indexing / elementwise product / flatten().nonzero() / linspace / rand / stack enter as the assumed contracts of pyvc/libmask.py; parameters are distinct objects from later allocations (allocation freshness); "
+                             "ModeWrapper.get_item is an assumed contract (only the batch size is read off the x item)"),
     "C18": dict(level="proof", technique="contract-based deductive verification of the layout state machine (ghost layout/origin, loop invariant over a symbolic member list, AST->SMT) + bounded padding collator",
                 text="_call_impl / KDComposeCollator.__call__ / KDSingleCollatorWrapper.__call__: default_collate at most once and exactly when a member asks, every member sees the layout its mode asks for, "
                      "(batch, ctx) iff configured, ctx is the batch's own batched context; obligations on explicitly rejected member orders are excused; the padding collator is bounded only",
